@@ -224,7 +224,7 @@ def masked_config_shapes(src):
                         setattr(node, field, [ast.Pass() if id(x) in ids else x for x in v])
                 return super().generic_visit(node)
         Cut().visit(fn)
-        out['pyramid/config/routes.py:%s(fragment cut)' % spec['qual']] = F.shape(fn)
+        out[spec['qual']] = F.shape(fn)
     return out
 
 
@@ -240,7 +240,7 @@ def facts(src):
         nums['matcher_fresh_dict'] = 0      # the closure could not be translated: its purity is not shown
     try:
         with open(os.path.join(HERE, 'pins_masked.json')) as f:
-            want = json.load(f)['pyramid/urldispatch.py:_compile_route']
+            want = json.load(f)['pyramid/urldispatch.py']['_compile_route']
         got = masked_shape(src, vals)
         summary['pyramid/urldispatch.py:_compile_route(masked)'] = got
         if got != want:
@@ -251,11 +251,13 @@ def facts(src):
     try:
         with open(os.path.join(HERE, 'pins_masked.json')) as f:
             wants = json.load(f)
-        for k, got in masked_config_shapes(src).items():
+        for q, got in masked_config_shapes(src).items():
+            k = 'pyramid/config/routes.py:%s(fragment cut)' % q
             summary[k] = got
-            if got != wants.get(k):
+            want = wants.get('pyramid/config/routes.py', {}).get(q)
+            if got != want:
                 problems.append('shape pin %s changed (%s -> %s): the hand-written model follows the previous text of '
-                                'this function' % (k, wants.get(k), got))
+                                'this function' % (k, want, got))
     except Exception as e:
         problems.append('masked shape pins of config/routes.py could not be computed: %r' % e)
     coq = F.HEADER
